@@ -5,6 +5,7 @@ import (
 	"fmt"
 	"os"
 	"strings"
+	"testing/synctest"
 )
 
 // E1x – confirmation of a candidate found in an abstraction (work-set or any-time model) under the exact queue
@@ -81,6 +82,11 @@ func (xs *xSearch) act(store uint64, env Env, tr Trans) xResult {
 		w.fuse.Arm(tr.K)
 		_ = w.Step(tr.Ctrl, tr.ID)
 		r = xResult{effects: 1, tokens: w.Restart(), resets: true, ok: true}
+	case "hold":
+		// first half of a split step: always a move (the successor differs at least in the held call)
+		if hres, reached := w.Hold(tr.Ctrl, tr.ID, tr.K); reached {
+			r = xResult{effects: 1, tokens: hres.Tokens, ok: true}
+		}
 	case "restart":
 		w.fuse.Kill()
 		r = xResult{effects: 1, tokens: w.Restart(), resets: true, ok: true}
@@ -121,6 +127,70 @@ func (xs *xSearch) act(store uint64, env Env, tr Trans) xResult {
 		r.succ = store
 	}
 	xs.memo[k] = r
+	return r
+}
+
+// actRelease performs the second half of a split step for the search: the step is started on the content it began
+// in and parked at its hold point, the moves made since are executed for real on that world (so that every version
+// the step remembers is consistent with what it finds), and the step continues.
+func (xs *xSearch) actRelease(begin uint64, env Env, ctrl, id string, k int, moves []Trans) xResult {
+	key := fmt.Sprintf("release|%d|%s|%s|%d|%d|%v", begin, ctrl, id, k, env.NextReq, schedStrings(moves))
+	if r, ok := xs.memo[key]; ok {
+		return r
+	}
+	x := xs.x
+	w := x.W
+	w.Restore(x.contentSnap[begin])
+	nextReq := env.NextReq
+	for _, m := range moves {
+		if m.Kind == "client" {
+			nextReq--
+		}
+	}
+	res, reached := w.StepSplit(ctrl, id, k, func() {
+		for _, m := range moves {
+			switch m.Kind {
+			case "step":
+				w.reconcileOnce(m.Ctrl, m.ID)
+				synctest.Wait()
+			case "client":
+				rq := x.Sc.Requests[nextReq]
+				nextReq++
+				var call *Call
+				if rq.Set != nil {
+					call = w.GoSet(context.Background(), rq.Set)
+				} else {
+					call = rq.Call(w)
+				}
+				synctest.Wait()
+				if !call.Done {
+					call.Cancel()
+					synctest.Wait()
+				}
+			case "fault":
+				for _, f := range x.Sc.Faults {
+					if f.Name == m.Fault {
+						f.Apply(w)
+						synctest.Wait()
+					}
+				}
+			}
+		}
+		synctest.Wait()
+		w.ReapCalls()
+		w.TakeTokens()
+		w.fuse.ResetEffects()
+	})
+	var r xResult
+	if reached {
+		r = xResult{effects: 1, tokens: res.Tokens, ok: true}
+		canon := w.Canon()
+		r.succ = hash64(canon)
+		if _, known := x.contentSnap[r.succ]; !known {
+			x.contentSnap[r.succ] = w.Snapshot()
+		}
+	}
+	xs.memo[key] = r
 	return r
 }
 
@@ -262,6 +332,7 @@ func (x *Explorer) ConfirmExact(target *E1State, opts ConfirmOpts) *Confirmation
 		via    Trans
 		depth  int
 		prio   int
+		held   []Trans // split steps: the moves made since the hold (env.Held != "")
 	}
 	visited := map[string]bool{}
 	var hp []*pnode
@@ -311,6 +382,9 @@ func (x *Explorer) ConfirmExact(target *E1State, opts ConfirmOpts) *Confirmation
 	for len(hp) > 0 {
 		n := pop()
 		key := fmt.Sprintf("%d#%s#%d,%d,%d,%s", n.store, queuesCanon(n.queues), n.env.NextReq, n.env.Faults, n.env.Crashes, n.env.Flags)
+		if n.env.Held != "" || n.env.Holds > 0 {
+			key += fmt.Sprintf("#%s,%d,%v", n.env.Held, n.env.Holds, schedStrings(n.held))
+		}
 		if visited[key] {
 			continue
 		}
@@ -319,7 +393,7 @@ func (x *Explorer) ConfirmExact(target *E1State, opts ConfirmOpts) *Confirmation
 		if xs.nodes > opts.MaxNodes {
 			break
 		}
-		if n.store == target.content && (!opts.NeedIdle || qlen(n.queues) == 0) {
+		if n.store == target.content && n.env.Held == "" && (!opts.NeedIdle || qlen(n.queues) == 0) {
 			if opts.ThenStep == nil {
 				goal = n
 				break
@@ -360,14 +434,21 @@ func (x *Explorer) ConfirmExact(target *E1State, opts ConfirmOpts) *Confirmation
 			var q map[string][]string
 			if r.resets {
 				q = enqueue(QExact, map[string][]string{}, r.tokens)
-			} else if tr.Kind == "step" {
+			} else if tr.Kind == "step" || tr.Kind == "hold" {
 				dq := dequeue(n.queues, tr)
 				q = enqueue(QExact, dq, r.tokens)
 			} else {
 				q = enqueue(QExact, n.queues, r.tokens)
 			}
-			q = xs.normalize(r.succ, q)
-			if opts.NeedIdle && env.Crashes >= sc.CrashBudget {
+			var heldMoves []Trans
+			if env.Held != "" && tr.Kind != "hold" {
+				heldMoves = append(append([]Trans{}, n.held...), tr)
+				env.HeldSteps++
+			}
+			if env.Held == "" {
+				q = xs.normalize(r.succ, q)
+			}
+			if opts.NeedIdle && env.Held == "" && env.Crashes >= sc.CrashBudget {
 				// (while a crash is still possible every pending token may simply vanish)
 				for _, items := range q {
 					last := ""
@@ -383,7 +464,30 @@ func (x *Explorer) ConfirmExact(target *E1State, opts ConfirmOpts) *Confirmation
 					}
 				}
 			}
-			push(&pnode{store: r.succ, queues: q, env: env, parent: n, via: tr, depth: n.depth + 1, prio: d*100 + qlen(q)*2 + n.depth/4})
+			push(&pnode{store: r.succ, queues: q, env: env, parent: n, via: tr, depth: n.depth + 1, prio: d*100 + qlen(q)*2 + n.depth/4, held: heldMoves})
+		}
+		// split steps: the held call may continue now; nothing else moves once HoldDepth is used up
+		heldCtrl := ""
+		if n.env.Held != "" {
+			hc, hid, hk := heldParts(n.env.Held)
+			heldCtrl = hc
+			var begin uint64
+			fmt.Sscanf(n.env.Held[strings.LastIndex(n.env.Held, "|")+1:], "%x", &begin)
+			if r := xs.actRelease(begin, n.env, hc, hid, hk, n.held); r.ok {
+				d, inCone := xs.dist[r.succ]
+				if !inCone && os.Getenv("VERIF_DEBUG_REL") != "" {
+					fmt.Printf("E1X-REL release %s after %v from content %d: successor %d not in the cone\n%s\n", n.env.Held, schedStrings(n.held), n.store, r.succ, x.W.Canon())
+				}
+				if inCone {
+					env := n.env
+					env.Held, env.HeldSteps = "", 0
+					q := xs.normalize(r.succ, enqueue(QExact, n.queues, r.tokens))
+					push(&pnode{store: r.succ, queues: q, env: env, parent: n, via: Trans{Kind: "release", Ctrl: hc, ID: hid, K: hk}, depth: n.depth + 1, prio: d*100 + qlen(q)*2 + n.depth/4})
+				}
+			}
+			if n.env.HeldSteps >= sc.HoldDepth {
+				continue
+			}
 		}
 		// Moves. Tokens without effect are consumed lazily: only when they stand in front of a token that is fired,
 		// when their consumption matters (they would have an effect in a direct successor content), or at the target.
@@ -427,6 +531,9 @@ func (x *Explorer) ConfirmExact(target *E1State, opts ConfirmOpts) *Confirmation
 				}
 				seen[it] = true
 				ctrl, id := splitItem(it)
+				if ctrl == heldCtrl {
+					break // the held call's controller runs nothing else
+				}
 				tr := Trans{Kind: "step", Ctrl: ctrl, ID: id, Src: src}
 				r := xs.act(n.store, n.env, tr)
 				if r.effects == 0 && !atTarget && !matters(ctrl, id) {
@@ -450,12 +557,26 @@ func (x *Explorer) ConfirmExact(target *E1State, opts ConfirmOpts) *Confirmation
 					parent = &pnode{store: n.store, queues: nil, env: n.env, parent: parent, via: bt, depth: parent.depth + 1}
 				}
 				saveN, saveQ := n, n.queues
-				n = &pnode{store: saveN.store, queues: q, env: saveN.env, parent: parent.parent, via: parent.via, depth: parent.depth}
+				n = &pnode{store: saveN.store, queues: q, env: saveN.env, parent: parent.parent, via: parent.via, depth: parent.depth, held: saveN.held}
 				if len(pops) == 0 {
-					n = &pnode{store: saveN.store, queues: q, env: saveN.env, parent: saveN.parent, via: saveN.via, depth: saveN.depth}
+					n = &pnode{store: saveN.store, queues: q, env: saveN.env, parent: saveN.parent, via: saveN.via, depth: saveN.depth, held: saveN.held}
 				}
 				add(tr, r, n.env)
-				if n.env.Crashes < sc.CrashBudget && r.effects > 0 {
+				if n.env.Held == "" && n.env.Holds < sc.HoldBudget && r.effects > 0 {
+					for k := 1; k < 40; k++ {
+						ht := Trans{Kind: "hold", Ctrl: tr.Ctrl, ID: tr.ID, K: k, Src: tr.Src}
+						hr := xs.act(n.store, n.env, ht)
+						if !hr.ok {
+							break
+						}
+						env := n.env
+						env.Holds++
+						env.Held = fmt.Sprintf("%s|%s|%d|%x", tr.Ctrl, tr.ID, k, n.store)
+						env.HeldSteps = 0
+						add(ht, hr, env)
+					}
+				}
+				if n.env.Held == "" && n.env.Crashes < sc.CrashBudget && r.effects > 0 {
 					for k := 0; k < r.effects; k++ {
 						ct := Trans{Kind: "crash", Ctrl: tr.Ctrl, ID: tr.ID, K: k, Src: tr.Src}
 						cr := xs.act(n.store, n.env, ct)
@@ -487,7 +608,7 @@ func (x *Explorer) ConfirmExact(target *E1State, opts ConfirmOpts) *Confirmation
 				}
 			}
 		}
-		if n.env.Crashes < sc.CrashBudget && qlen(n.queues) > 0 {
+		if n.env.Held == "" && n.env.Crashes < sc.CrashBudget && qlen(n.queues) > 0 {
 			tr := Trans{Kind: "restart", Fault: "crash-between-steps"}
 			r := xs.act(n.store, n.env, tr)
 			env := n.env
@@ -666,9 +787,23 @@ func (x *Explorer) runExact(sched []Trans, drain bool, beforeMove func(i int, t 
 		}
 	}
 	_ = consumeSurplus
+	var heldBegin *WorldSnap
 	for n, t := range sched {
 		switch t.Kind {
-		case "step", "crash":
+		case "release":
+			full = append(full, t)
+			if beforeMove != nil {
+				beforeMove(n, t)
+			}
+			res, reached := w.Release(t.Ctrl, t.ID, t.K, heldBegin, w.Snapshot())
+			if !reached {
+				return full, queues, fmt.Sprintf("%s: the hold point is not reached again", t.String())
+			}
+			queues = enqueue(QExact, queues, res.Tokens)
+			if afterMove != nil {
+				afterMove(n, t, &res)
+			}
+		case "step", "crash", "hold":
 			q := queues[t.Src]
 			pos := -1
 			for i, it := range q {
@@ -696,7 +831,17 @@ func (x *Explorer) runExact(sched []Trans, drain bool, beforeMove func(i int, t 
 			if beforeMove != nil {
 				beforeMove(n, t)
 			}
-			if t.Kind == "crash" {
+			if t.Kind == "hold" {
+				heldBegin = w.Snapshot()
+				hres, reached := w.Hold(t.Ctrl, t.ID, t.K)
+				if !reached {
+					return full, queues, fmt.Sprintf("%s: the step makes fewer calls in the real run", t.String())
+				}
+				queues = enqueue(QExact, dequeue(queues, t), hres.Tokens)
+				if afterMove != nil {
+					afterMove(n, t, &hres)
+				}
+			} else if t.Kind == "crash" {
 				w.fuse.Arm(t.K)
 				cres := w.Step(t.Ctrl, t.ID)
 				queues = enqueue(QExact, map[string][]string{}, w.Restart())
@@ -835,7 +980,11 @@ func (c *candidates) resolve(x *Explorer, rep *Report, sc *Scenario) {
 			if why := x.RealizeExact(trace, c.needIdle, nil); why == "" {
 				if ok, detail := p.check(x.W); ok {
 					conf = &Confirmation{Confirmed: true, Schedule: trace, Detail: detail + " [the abstraction's own trace re-executed under exact queues]", Nodes: conf.Nodes}
+				} else {
+					conf.Reason += "; own trace under exact queues: the violation does not show: " + detail
 				}
+			} else {
+				conf.Reason += "; own trace under exact queues: " + why
 			}
 		}
 		if !conf.Confirmed {
